@@ -49,6 +49,30 @@ func runC16(c *Ctx) {
 			addGroup(bb, plain, "bit flip")
 		}
 	}
+	// failures right after the file_id record (a file type the library does
+	// not hold, or none at all): the file_id record is complete and its
+	// unlisted fields are to be accounted for
+	for i, ft := range []int{0xFF, 0, 3, 50, 200, 0xF7, 4, 32} {
+		for v := 0; v < c.pick(2, 6); v++ {
+			arch := byte((i + v) % 2)
+			s := newStream(12+2*(v%2), v%2 == 1)
+			fs := []FieldDef{{0, 1, 0}, {1, 2, 0x84}}
+			pl := append([]byte{byte(ft)}, wire(u16le(1), arch)...)
+			for k := 0; k < 1+rng.Intn(3); k++ {
+				fs = append(fs, FieldDef{byte(100 + 10*k + rng.Intn(10)), 1, 2}) // unlisted file_id fields
+				pl = append(pl, byte(rng.Intn(256)))
+			}
+			s.Def(rng.Intn(16), arch, 0, fs, nil)
+			s.Data(int(s.toks[0].l), pl)
+			if v%3 != 2 {
+				s.Def(1, arch, 0xFF01, []FieldDef{{1, 1, 2}}, nil)
+				s.Data(1, []byte{7})
+				s.Def(2, arch, 20, []FieldDef{{3, 1, 2}, {120, 1, 2}}, nil)
+				s.Data(2, []byte{70, 1})
+			}
+			addGroup(s.Bytes(), plain, fmt.Sprintf("file type %d, file_id with unlisted fields", ft))
+		}
+	}
 	// device files with unknown items, all 8 option sets
 	for _, f := range corpusFiles() {
 		b := mustRead(f)
